@@ -4,7 +4,7 @@ import random, itertools
 
 SIGMA = "19.EDedAFGOTRMNX$!#%&H\"'?:;,()+-*/\\^<=> é"
 
-MENU_LINES = ["10 INPUT A", "10 INPUT \"Q\";A,B$", "20 PRINT A;", "30 A$=INKEY$", "40 GOTO 10", "40 GOTO 40", "50 END", "60 STOP",
+MENU_LINES = ["10 INPUT A", "10 INPUT \"Q\";A,B$", "10 INPUT A$", "20 PRINT A;", "30 A$=INKEY$", "40 GOTO 10", "40 GOTO 40", "50 END", "60 STOP",
               "15", "99", "70 FOR I=1 TO 3:PRINT I:NEXT", "80 GOSUB 80", "90 X=1\\0", "100 WHILE 1:WEND", "110 LIST",
               "120 PRINT \"A\";:STOP", "130 DATA 1,2", "140 READ A,B,C", "10", "150 IF A THEN 999", "160 WEND"]
 MENU_DIRECT = ["RUN", "RUN 40", "RUN 70", "LIST", "LIST 10-50", "LIST 50-10", "DELETE 40-10", "LIST 65529-0", "LIST 70000", "DELETE 99999-5",
@@ -13,7 +13,7 @@ MENU_DIRECT = ["RUN", "RUN 40", "RUN 70", "LIST", "LIST 10-50", "LIST 50-10", "D
                "GOSUB 60", "RETURN", "NEXT", "INPUT Z", "K$=INKEY$", "DELETE 10-20", "DELETE", "RENUM", "RENUM 100,,0", "TRON",
                "TROFF", "A=1:B=2:PRINT A+B", "", "   ", "?", "'", "END", "STOP", "DEF FNA(X)=X", "LOAD", "1E", "PRINT 1EE",
                "X" * 1025, "PRINT \"" + "é" * 600 + "\"", "10 " + "A" * 1030]
-REPLIES = ["1", "1,2", "", "X", "1,\"A,B\"", "," * 5, "9" * 1100, "1e99", "&HFF", "é"]
+REPLIES = ["1", "1,2", "", "X", "1,\"A,B\"", "," * 5, "9" * 1100, "1e99", "&HFF", "é", "\"", "1,\"", " \" ", "\"\"", "1,\"\"\""]
 FILES = {"P1": "10 PRINT \"P\";\n20 INPUT A\n30 GOTO 10\n", "BAD": "10 PRINT 1\nPRINT 2\n"}
 
 
@@ -56,6 +56,34 @@ def short_string_sessions(maxlen, per_session=400, prefix="short"):
                 n += 1
     if ops:
         out.append({"id": "%s-%d" % (prefix, n), "q": 5000, "maxexec": 12, "ops": ops, "files": {}})
+    return out
+
+
+RSIGMA = "\",1A -.&é"
+INPUT_FORMS = ["INPUT A", "INPUT A$", "INPUT A%", "INPUT A,B$", "INPUT A$,B$", "INPUT ,A$", "INPUT \"P\";X(1),Y$(1)"]
+
+
+def reply_sessions(maxlen, per_session=60, prefix="reply"):
+    """every INPUT form x every reply of up to maxlen characters over a small alphabet; after the
+    reply the program is interrupted (if it still asks) and the shell must answer again"""
+    out, n = [], 0
+    replies = [""]
+    for k in range(1, maxlen + 1):
+        replies += ["".join(t) for t in itertools.product(RSIGMA, repeat=k)]
+    for form in INPUT_FORMS:
+        ops = [{"op": "line", "text": "10 " + form}, {"op": "line", "text": "20 PRINT \"K\";A;A$;B$"}]
+        cnt = 0
+        for rp in replies:
+            ops += [{"op": "line", "text": "RUN"}, {"op": "line", "text": rp}, {"op": "int"}, {"op": "line", "text": "PRINT 1"}]
+            cnt += 1
+            if cnt >= per_session:
+                out.append({"id": "%s-%d" % (prefix, n), "q": 5000, "maxexec": 40, "ops": ops, "files": {}})
+                n += 1
+                cnt = 0
+                ops = [{"op": "line", "text": "10 " + form}, {"op": "line", "text": "20 PRINT \"K\";A;A$;B$"}]
+        if cnt:
+            out.append({"id": "%s-%d" % (prefix, n), "q": 5000, "maxexec": 40, "ops": ops, "files": {}})
+            n += 1
     return out
 
 
